@@ -5,6 +5,9 @@ import (
 	"encoding/json"
 	"fmt"
 	"net"
+	"os"
+	"strconv"
+	"sync/atomic"
 	"time"
 
 	"github.com/bbva/qed/balloon"
@@ -15,8 +18,25 @@ import (
 	"verif/xp"
 )
 
-// FreeAddr returns a loopback address with a kernel-chosen free port.
+var portCtr int64
+
+// FreeAddr returns a loopback address with a free port. Ports come from a
+// range owned by this shard (below the ephemeral range), so that the 16
+// parallel shards of a unit never pick the same port between probing and
+// binding; each candidate is probed by listening on it once.
 func FreeAddr() string {
+	shard, _ := strconv.Atoi(os.Getenv("VERIF_SHARD"))
+	const span = 1300
+	base := 10000 + (shard%16)*span
+	for i := 0; i < span; i++ {
+		port := base + int((atomic.AddInt64(&portCtr, 1)+int64(os.Getpid()*7))%span)
+		l, err := net.Listen("tcp", fmt.Sprintf("127.0.0.1:%d", port))
+		if err != nil {
+			continue
+		}
+		l.Close()
+		return fmt.Sprintf("127.0.0.1:%d", port)
+	}
 	l, err := net.Listen("tcp", "127.0.0.1:0")
 	if err != nil {
 		panic(err)
